@@ -109,6 +109,11 @@ bool g_keyCompareFaults = false;
 struct FKey : LedgeredT<6, true>
 {
 	FKey(int k_ = 0) : LedgeredT<6, true>(kKeyBase + 700 + k_), k(k_) {}
+	// like std::string, a moved-from key no longer has its value: a key that was handed over as an rvalue must not be read again
+	FKey(const FKey & o) : LedgeredT<6, true>(o), k(o.k) {}
+	FKey(FKey && o) : LedgeredT<6, true>(std::move(o)), k(o.k) { o.k = -12345; }
+	FKey & operator = (const FKey & o) { LedgeredT<6, true>::operator = (o); k = o.k; return *this; }
+	FKey & operator = (FKey && o) { LedgeredT<6, true>::operator = (std::move(o)); k = o.k; if(&o != this) o.k = -12345; return *this; }
 	int k;
 	friend bool operator == (const FKey & a, const FKey & b) { a.touch(); b.touch(); if(g_keyCompareFaults) faults().point(4); return a.k == b.k; }
 	friend bool operator < (const FKey & a, const FKey & b) { a.touch(); b.touch(); if(g_keyCompareFaults) faults().point(4); return a.k < b.k; }
@@ -153,6 +158,15 @@ template <> struct Acc<TDisp> : AccDisp<TDisp> {
 	enum { keys = 1, scoped = 1, queue = 0 };
 };
 template <> struct Acc<TDispKey> : AccDisp<TDispKey> {
+	// the event reaches the remover / the dispatcher as an rvalue of exactly the Event type for odd keys, as an lvalue for even ones
+	template <typename F> static Handle add(TDispKey & t, int k, int how, const Handle & b, const F & f) {
+		if(k & 1) return how == 0 ? t.appendListener(FKey(k), f) : how == 1 ? t.prependListener(FKey(k), f) : t.insertListener(FKey(k), f, b);
+		FKey key(k); return how == 0 ? t.appendListener(key, f) : how == 1 ? t.prependListener(key, f) : t.insertListener(key, f, b);
+	}
+	template <typename R, typename F> static Handle radd(R & r, int k, int how, const Handle & b, const F & f) {
+		if(k & 1) return how == 0 ? r.appendListener(FKey(k), f) : how == 1 ? r.prependListener(FKey(k), f) : r.insertListener(FKey(k), f, b);
+		FKey key(k); return how == 0 ? r.appendListener(key, f) : how == 1 ? r.prependListener(key, f) : r.insertListener(key, f, b);
+	}
 	static void trigger(TDispKey & t, int k, int arg, bool) { t.dispatch(FKey(k), arg); }
 	template <typename F> static void each(TDispKey & t, int k, F f) { t.forEach(k, [&](const Handle & h, const TDispKey::Callback &) { f(h); }); }
 	static bool same(const Handle & a, const Handle & b) { return ! a.expired() && ! b.expired() && ! a.owner_before(b) && ! b.owner_before(a); }
